@@ -7,7 +7,7 @@
    is, [cfg_code], or with the proposed patches, [cfg_patched]). *)
 From Coq Require Import List Arith Permutation.
 Import ListNotations.
-From NV Require Import Lsp.World Lsp.Spec Lsp.Inv Lsp.Witness Lsp.Main.
+From NV Require Import Lsp.World Lsp.Spec Lsp.Inv Lsp.Witness Lsp.SelfImport Lsp.Main.
 
 (* the server never terminates abnormally *)
 Theorem C19_no_crash : forall cf pick disk rank fuel h, good pick disk rank fuel h ->
@@ -78,6 +78,17 @@ Theorem C19_cycle_order_refuted :
     w_pub w1 0 = Some d1 /\ w_pub w2 0 = Some d2 /\ ~ same_diags d1 d2.
 Proof. exact cycle_order_refuted. Qed.
 
-Theorem C19_self_import_overflows_50 :
-  run cfg_code idpick nodisk 50 [Open 0 (mkC 1 [0] SOk)] = Crash Overflow.
-Proof. exact self_import_overflows_50. Qed.
+(* a document importing itself makes typecheck_uncached recurse without bound: whatever the
+   recursion budget, the model of the code as it is runs out of it (stack overflow of the server) *)
+Theorem C19_self_import_diverges :
+  forall fuel, run cfg_code idpick nodisk fuel [Open 0 (mkC 1 [0] SOk)] = Crash Overflow.
+Proof. exact self_import_overflows. Qed.
+
+(* the proposed patches repair the two witnesses *)
+Theorem C19_closed_buffer_patched :
+  exists w, run cfg_patched idpick disk1 50 hist1 = Ok w /\ w_pub w 0 = Some [].
+Proof. exact closed_buffer_patched. Qed.
+
+Theorem C19_self_import_patched :
+  exists w, run cfg_patched idpick nodisk 50 [Open 0 (mkC 1 [0] SOk)] = Ok w /\ w_pub w 0 = Some [].
+Proof. exact self_import_patched. Qed.
